@@ -125,8 +125,16 @@ enum KCL {
 
 fn check_cl(desc: &str, c: (f64, f64, f64), p: (f64, f64), q: (f64, f64), want: KCL, touch_at: Option<(f64, f64)>) -> Result<(), Violation> {
     let circle = Circle::new(Point::new(c.0, c.1), c.2);
-    for (u, v, order) in [(p, q, "p->q"), (q, p, "q->p")] {
-        let line = Line::between(&Point::new(u.0, u.1), &Point::new(v.0, v.1));
+    for (u, v, order) in [(p, q, "p->q"), (q, p, "q->p"), (p, q, "Line::new(3a,3b,3c)"), (q, p, "Line::new(-a/2,-b/2,-c/2)")] {
+        let line = if order.starts_with("Line::new") {
+            // the same line through the explicit-coefficient constructor, un-normalised on purpose
+            let (a, b) = (u.1 - v.1, v.0 - u.0);
+            let c0 = -(a * u.0 + b * u.1);
+            let k = if order.contains("3a") { 3.0 } else { -0.5 };
+            Line::new(k * a, k * b, k * c0)
+        } else {
+            Line::between(&Point::new(u.0, u.1), &Point::new(v.0, v.1))
+        };
         let res = intersect_cl(&circle, &line);
         let (name, ok) = match (&res, want) {
             (CircleLineIntersection::None, k) => ("None", k == KCL::None),
@@ -299,6 +307,12 @@ fn run_case(c: &Case) -> CaseResult {
             let on = ux * vy - uy * vx == 0;
             let got = Line::between(&pt(*p), &pt(*q)).contains(&pt(*x));
             vensure!(got == on, "contains", "{:?}: contains = {}, exact {}", c, got, on);
+            let (a, b) = ((p.1 - q.1) as f64, (q.0 - p.0) as f64);
+            let c0 = -(a * p.0 as f64 + b * p.1 as f64);
+            let l2 = Line::new(-7.0 * a, -7.0 * b, -7.0 * c0);
+            vensure!(l2.contains(&pt(*x)) == on, "contains", "{:?}: Line::new(-7a,-7b,-7c).contains = {}, exact {}", c, l2.contains(&pt(*x)), on);
+            let dist_exact = (ux * vy - uy * vx).abs() as f64 / ((ux * ux + uy * uy) as f64).sqrt();
+            vensure!((l2.dist(&pt(*x)) - dist_exact).abs() <= 1e-9 * (1.0 + dist_exact), "line-dist", "{:?}: dist = {}, exact {}", c, l2.dist(&pt(*x)), dist_exact);
             if on {
                 st.nontrivial = true;
             }
